@@ -38,6 +38,8 @@ pub(super) fn execute_index_seek<'a, S: GraphSnapshot + 'a>(
         PlanIterator::Dynamic(Box::new(
             node_ids
                 .into_iter()
+                // index entries outlive a deleted node; a scan never returns one
+                .filter(move |iid| !snapshot.is_tombstoned_node(*iid))
                 .map(move |iid| Ok(Row::default().with(alias.clone(), Value::NodeId(iid)))),
         ))
     } else {
